@@ -130,3 +130,21 @@ theorem NChain.next_mem {node : Nat → Node} : ∀ {l : List Nat} {first : Opti
     · exact List.mem_cons_of_mem _ (NChain.next_mem h.2 x hx y hy)
 
 end Babylon.Coro
+
+namespace Babylon.Coro
+
+/-- writing a node outside the list does not change the chain -/
+theorem Chain.upd_notin {node : Nat → Node} {n : Nat} {v : Node} {l : List Nat} {p : Ptr} {first : Option Nat}
+    (hn : n ∉ l) (h : Chain node p first l) : Chain (upd node n v) p first l :=
+  Chain.congr (fun x hx => upd_other _ _ (fun e => hn (by rw [← e]; exact hx))) h
+
+theorem NChain.upd_notin {node : Nat → Node} {n : Nat} {v : Node} {l : List Nat} {first : Option Nat}
+    (hn : n ∉ l) (h : NChain node first l) : NChain (upd node n v) first l :=
+  NChain.congr (fun x hx => by rw [upd_other _ _ (fun e => hn (by rw [← e]; exact hx))]) h
+
+/-- writing only the `prev` field never changes an `NChain` -/
+theorem NChain.upd_prev {node : Nat → Node} {n : Nat} {q : Ptr} {l : List Nat} {first : Option Nat}
+    (h : NChain node first l) : NChain (upd node n { node n with prev := q }) first l :=
+  NChain.congr (fun x _ => by by_cases e : x = n <;> simp [upd, e]) h
+
+end Babylon.Coro
